@@ -17,7 +17,8 @@ package asserts_test
 //       chunks the bytes nor on the initial buffer size;
 //   B4  by construction: an unmodified valid encoding is accepted with the
 //       data it was rendered from; a valid encoding cut anywhere before its
-//       signature, or whose declared body-length is off by one, is rejected
+//       signature, whose declared body-length is off by one, or with the
+//       space of a 'NAME ": " SIMPLEVALUE' header dropped, is rejected
 //       (stream decoder: with an error other than io.EOF).
 //
 // No claim is made about *which* error is returned.
@@ -211,6 +212,9 @@ var c20ByteTokens = []string{"\n", "\n\n", "\n\n\n", " ", "  ", "    ", "  -", "
 var c20BodyLenValues = []string{"0", "1", "-1", "-5", "-100000", "-9223372036854775808", "99999999999", "2097152", "2097153", "9223372036854775807",
 	"99999999999999999999", "1e3", " 5", "5 ", "0x10", "", "five", "+3", "007"}
 
+// a top-level "name: value" line whose value is not empty and does not start with a space
+var c20SimpleHeader = regexp.MustCompile(`(?m)^[a-z](?:-?[a-z0-9])*: [^ \n][^\n]*$`)
+
 var c20BodyLenRe = regexp.MustCompile(`\nbody-length: [^\n]*`)
 
 func c20MutateBytes(t *rapid.T, b []byte) ([]byte, string) {
@@ -377,6 +381,18 @@ func c20GenBytesCase(t *rapid.T) c20BytesCase {
 				c.Note, c.Expect = fmt.Sprintf("valid with body-length %d for a %d-byte body", n+delta, n), "reject"
 				return c
 			}
+		}
+		c.Raw, c.Note = c20MutateBytes(t, stream)
+	case kind == 8:
+		// NAME ": " SIMPLEVALUE: drop the space of one top-level single-line header
+		head := stream[:bytes.Index(stream, []byte("\n\n"))]
+		locs := c20SimpleHeader.FindAllIndex(head, -1)
+		if len(locs) > 0 {
+			loc := locs[rapid.IntRange(0, len(locs)-1).Draw(t, "hdrline")]
+			colon := loc[0] + bytes.IndexByte(head[loc[0]:loc[1]], ':')
+			c.Raw = append(append([]byte{}, stream[:colon+1]...), stream[colon+2:]...)
+			c.Note, c.Expect = fmt.Sprintf("valid with the space after the colon removed @%d", colon), "reject"
+			return c
 		}
 		c.Raw, c.Note = c20MutateBytes(t, stream)
 	default:
